@@ -55,7 +55,7 @@ IMAG_SIGNIFICANT = 1e-6
 
 
 def classes(tier):
-    return ["term_exh", "term_rand", "term_imag", "sum", "deriv"]
+    return ["term_exh", "term_rand", "term_imag", "sum", "deriv", "history"]
 
 
 # ----------------------------------------------------------------------------- oracle helpers
@@ -567,6 +567,48 @@ def run_case(ctx):
             time_evolution_for_term(term, t)
         except ValueError:
             pass
+        return
+
+    if cls == "history":
+        # several requests in one process that agree in everything a too-coarse memo key could look at
+        # (Pauli string, hash bucket / tolerance-equality of the coefficient, time, object identity) and
+        # differ by more than the oracle's tolerance; every call is judged by the hooks
+        width = rng.randint(1, 3)
+        ops = rand_ops(rng, width)
+        c = rng.choice([0.5, 1.0, -0.75, rng.uniform(0.2, 1.5)])
+        t = rng.choice([1.0, rng.uniform(0.5, 3.0), -2.0, 1e3])
+        near_c = [c, c + 2e-7, c * (1 + 3e-6), c - 4e-7, -c, c]
+        near_t = [t, t + 1e-6, t * (1 + 1e-7), -t, 2 * t, t]
+        other = dict(ops)
+        q = rng.choice(sorted(other))
+        other[q] = rng.choice([o for o in "XYZ" if o != other[q]])
+        mode = rng.choice(["coeff", "time", "ops", "object", "sum", "deriv"])
+        ctx.describe(f"history {mode} {_fmt_ops(ops)} c={c!r} t={t!r} other={_fmt_ops(other)}", True)
+        mon.note(f"history:{mode}")
+        if mode == "coeff":
+            for cc in near_c:
+                time_evolution_for_term(make_term(rng, ops, cc, "dict")[0], t)
+        elif mode == "time":
+            term = make_term(rng, ops, c, "dict")[0]
+            for tt in near_t:
+                time_evolution_for_term(term, tt)
+        elif mode == "ops":
+            for o in (ops, other, ops):
+                time_evolution_for_term(make_term(rng, o, c, "dict")[0], t)
+        elif mode == "object":
+            term = make_term(rng, ops, c, "dict")[0]
+            first = time_evolution_for_term(term, t)
+            first.operations.clear() if rng.random() < 0.5 else None  # a caller may do what it likes with its result
+            time_evolution_for_term(term, t)
+            time_evolution_for_term(make_term(rng, ops, c, "dict")[0], t)
+        else:
+            steps = rng.choice([1, 2, 3])
+            fn = time_evolution if mode == "sum" else time_evolution_derivatives
+            tt = abs(t) if abs(t) < 10 else 1.5
+            for cc in (c, c + 2e-7, c):
+                ham = PauliSum([make_term(rng, ops, cc, "dict")[0], make_term(rng, other, 0.5, "dict")[0]])
+                fn(ham, tt, n_steps=steps)
+                fn(ham, tt, n_steps=steps % 3 + 1)
         return
 
     if cls in ("sum", "deriv"):
